@@ -235,6 +235,12 @@ pub fn exec_item(prop: Prop, item: &Item) -> Result<ItemResult, (Case, String)> 
                     let o = run_case(&c, opts).map_err(|f| fail_of(&c, f))?;
                     runs.push((case_hash(&c), o.flags));
                     digest = digest.wrapping_mul(0x100000001b3) ^ o.digest;
+                    if prop == Prop::C06 && *kind != FaultKind::Eq {
+                        let pf = crate::plain_engine::run_plain_case(&c).map_err(|m| (c.clone(), m))?;
+                        if pf & crate::plain_engine::PF_FAULT_FIRED != 0 {
+                            runs.push((case_hash(&c) ^ PLAIN_SALT, o.flags));
+                        }
+                    }
                 }
             }
             Ok(ItemResult { runs, digest })
@@ -242,14 +248,59 @@ pub fn exec_item(prop: Prop, item: &Item) -> Result<ItemResult, (Case, String)> 
         _ => {
             let o = run_case(&item.case, opts).map_err(|f| fail_of(&item.case, f))?;
             runs.push((case_hash(&item.case), o.flags));
+            if matches!(prop, Prop::C01 | Prop::C03 | Prop::C09 | Prop::C10) {
+                // the same case over an element type without a destructor (needs_drop == false)
+                crate::plain_engine::run_plain_case(&item.case).map_err(|m| (item.case.clone(), m))?;
+                runs.push((case_hash(&item.case) ^ PLAIN_SALT, o.flags));
+            }
             Ok(ItemResult { runs, digest: o.digest })
         }
     }
 }
 
+pub const PLAIN_SALT: u64 = 0x51A1_51A1_51A1_51A1;
+
+/// Turns an unresolved fault choice into a concrete fault plan by a fault-free counting run.
+pub fn resolve_fault(prop: Prop, case: &Case) -> Case {
+    let mut c = case.clone();
+    let Some((kind, e_op, e_k)) = c.fault_pick.take() else { return c };
+    c.fault = None;
+    let Ok(o) = run_case(&c, prop.opts()) else { return c };
+    let elig = |kind: FaultKind| -> Vec<(usize, u32)> {
+        o.counts_per_op.iter().enumerate().filter(|(_, cnt)| cnt[kind as usize] > 0).map(|(i, cnt)| (i, cnt[kind as usize])).collect()
+    };
+    let mut kind = kind;
+    let mut eligible = elig(kind);
+    if eligible.is_empty() && kind != FaultKind::Drop {
+        // the history runs no user code of the chosen kind: fall back to a kind it does run
+        for k2 in [FaultKind::Clone, FaultKind::IterStep, FaultKind::Make, FaultKind::Eq] {
+            let e = elig(k2);
+            if !e.is_empty() {
+                kind = k2;
+                eligible = e;
+                break;
+            }
+        }
+    }
+    if eligible.is_empty() {
+        return c;
+    }
+    let (op_index, cnt) = eligible[(e_op as usize * eligible.len()) >> 16];
+    let k = 1 + ((e_k as u32 * cnt) >> 16);
+    c.fault = Some(Fault { kind, k, op_index: op_index as u32 });
+    c
+}
+
 /// Replays one saved case under the property's oracles (bypasses all generators).
 pub fn exec_replay(prop: Prop, case: &Case) -> Result<(u64, u64), String> {
     let opts = prop.opts();
+    let resolved;
+    let case = if case.fault_pick.is_some() {
+        resolved = resolve_fault(prop, case);
+        &resolved
+    } else {
+        case
+    };
     match prop {
         Prop::C04 => {
             let o = run_case(case, opts).map_err(|f| f.msg)?;
@@ -265,6 +316,12 @@ pub fn exec_replay(prop: Prop, case: &Case) -> Result<(u64, u64), String> {
             }
             Ok((o.flags, o.digest))
         }
-        _ => run_case(case, opts).map(|o| (o.flags, o.digest)).map_err(|f| f.msg),
+        _ => {
+            let o = run_case(case, opts).map_err(|f| f.msg)?;
+            if matches!(prop, Prop::C01 | Prop::C03 | Prop::C06 | Prop::C09 | Prop::C10) {
+                crate::plain_engine::run_plain_case(case)?;
+            }
+            Ok((o.flags, o.digest))
+        }
     }
 }
